@@ -1532,3 +1532,59 @@ M("c12_prepare_allocation_without_padding_revert", ["C12", "C01"], ["C12.R6", "C
 """, """        // this only works out when the size is a multiple of the alignment.
 """)])
 
+# ---------------------------------------------------------------- rules added after the fourth seeding round
+M("c13_without_shrink_loses_grow_override", ["C13"], ["C13.R6"], [
+    ("src/without_dealloc.rs", """    #[inline(always)]
+    unsafe fn grow(&self, ptr: NonNull<u8>, old_layout: Layout, new_layout: Layout) -> Result<NonNull<[u8]>, AllocError> {
+        unsafe { self.0.grow(ptr, old_layout, new_layout) }
+    }
+
+    #[inline(always)]
+    unsafe fn grow_zeroed(
+        &self,
+        ptr: NonNull<u8>,
+        old_layout: Layout,
+        new_layout: Layout,
+    ) -> Result<NonNull<[u8]>, AllocError> {
+        unsafe { self.0.grow_zeroed(ptr, old_layout, new_layout) }
+    }
+
+    #[inline(always)]
+    unsafe fn shrink(&self, ptr: NonNull<u8>, old_layout: Layout, new_layout: Layout) -> Result<NonNull<[u8]>, AllocError> {
+        #[cold]""", """    #[inline(always)]
+    unsafe fn grow_zeroed(
+        &self,
+        ptr: NonNull<u8>,
+        old_layout: Layout,
+        new_layout: Layout,
+    ) -> Result<NonNull<[u8]>, AllocError> {
+        unsafe { self.0.grow_zeroed(ptr, old_layout, new_layout) }
+    }
+
+    #[inline(always)]
+    unsafe fn shrink(&self, ptr: NonNull<u8>, old_layout: Layout, new_layout: Layout) -> Result<NonNull<[u8]>, AllocError> {
+        #[cold]""")])
+M("c13_without_shrink_typed_shrink_slice_forwards", ["C13"], ["C13.R6", "C13.R2", "C17.R2"], [
+    ("src/traits/bump_allocator_typed.rs", """        _ = (ptr, old_len, new_len);
+        None""", """        unsafe { B::shrink_slice(&self.0, ptr, old_len, new_len) }""")])
+M("c14_stats_current_chunk_unchecked_when_guaranteed", ["C14"], ["C14.R7"], [
+    ("src/stats.rs", """        Some(Chunk {
+            chunk: self.chunk.as_non_dummy()?,
+            marker: self.marker,
+        })""", """        let chunk = if S::GUARANTEED_ALLOCATED { unsafe { self.chunk.as_non_dummy_unchecked() } } else { self.chunk.as_non_dummy()? };
+        Some(Chunk { chunk, marker: self.marker })""")])
+M("c12_first_chunk_sized_by_hint", ["C12"], ["C12.R7"], [
+    ("src/raw_bump.rs", """                ChunkSize::from_capacity(*layout).ok_or_else(E::capacity_overflow)?,
+                None,
+                // When this bump allocator is unallocated, `A` is guaranteed to implement `Default`,
+                // `default_or_panic` will not panic.
+                A::default_or_panic(),
+            ),
+            ChunkClass::NonDummy(mut chunk) => {""", """                ChunkSize::from_hint(layout.size() + 16).ok_or_else(E::capacity_overflow)?,
+                None,
+                // When this bump allocator is unallocated, `A` is guaranteed to implement `Default`,
+                // `default_or_panic` will not panic.
+                A::default_or_panic(),
+            ),
+            ChunkClass::NonDummy(mut chunk) => {""")])
+
